@@ -85,10 +85,21 @@ func zzC10_step(proto, role, state, op, msgLen int) {
 	// drive the instance into automaton state `state` with real calls:
 	// 0 new | 1 started | 2 one timeout | 3 two timeouts | 4 ended | 5 started + invalid vector from the dealer
 	// 6 one timeout + a pending complaint against the dealer
+	// 7 / 8 / 9: as 1 / 2 / 3 with a ForceDisqualify of an arbitrary in-range participant (possibly this one) right
+	// after Start: the timeouts and End are accepted as if it had not happened
 	running, timeouts := false, 0
+	forced := state >= 7
+	if forced {
+		state -= 6
+	}
 	if state >= 1 {
 		verifAssert(st.Start(seed) == nil, "Start accepted on a new instance")
 		running = true
+	}
+	if forced {
+		k := nondetInt()
+		verifAssume(k >= 0 && k < n)
+		verifAssert(st.ForceDisqualify(k) == nil, "ForceDisqualify of an in-range participant is accepted while running")
 	}
 	if state == 5 && me != d {
 		_ = st.HandleBroadcastMsg(d, dkgVecMsg(1, n, t, d))
